@@ -906,10 +906,14 @@ def get_charnos(node: ast.AST, source: str, keep_first_indent: bool = False) -> 
     if code and code[-1] == " ":
         whitespace = max(re.findall(r" *\Z$", code), key=len)
         end_charno -= len(whitespace)
-    if source[start_charno - 1] == "@" and isinstance(
+    if start is not node and isinstance(
         node, (ast.ClassDef, ast.FunctionDef, ast.AsyncFunctionDef)
     ):
-        start_charno -= 1
+        # The position of a decorator is that of its expression: the @ comes before it, and
+        # there may be blanks or an opening parenthesis in between.
+        at_sign = re.search(r"@[\s\\(]*\Z", source[:start_charno])
+        if at_sign:
+            start_charno = at_sign.start()
     if keep_first_indent:
         whitespace = max(re.findall(r" *\Z$", source[:start_charno]), key=len)
         start_charno -= len(whitespace)
